@@ -9,6 +9,7 @@ from vlib import gates, schedfuzz, streamharness as H, watch
 from vlib.targets import Boom, norm_exc
 
 PROPERTY = 'C01'
+EVALUATIONS_KEYS = ['runs']
 LEVEL = 'exploration'
 RULE = ('(a) DFS enumeration of every feasible completion order of fifo_stream for n<=5 (quick) / n<=6 (thorough), capacity 1-3, '
         'flags x one failing / one preprocessor-rejected element; (b) seeded runs of fifo_stream (controller-completed futures) '
@@ -102,6 +103,15 @@ def gen_cases(tier, seed):
                       'fail_rate': rng.choice([0, 0, 0.05, 0.3]), 'reject_rate': rng.choice([0, 0, 0.1]),
                       'policy': rng.choice(['fifo', 'lifo', 'random', 'random', 'blocklifo', 'evenfirst']),
                       'consumer': rng.choice(['fast', 'fast', 'slow']), 'fuzz': rng.random() < 0.8,
+                      'seed': rng.randrange(1 << 30)})
+    # (b2) stalls: a source or consumer that pauses for about a polling interval (0.1 s, 1 s are the usual constants) at the
+    # start, in the middle or right before the end, with dense delay injection in the consumer/feeder hand-off
+    for i in range(160 if tier == 'quick' else 2500):
+        who = 'source' if i % 4 else 'consumer'
+        cases.append({'kind': rng.choice(['direct', 'parmap']), 'n': rng.choice([3, 12, 13]), 'capacity': rng.choice([1, 2, 5]), 'concurrency': rng.choice([1, 2, 4]),
+                      'return_x': rng.random() < 0.5, 'return_exceptions': True, 'fail_rate': rng.choice([0, 0.1]), 'reject_rate': 0,
+                      'policy': rng.choice(['fifo', 'random']), 'consumer': 'fast', 'fuzz': True, 'fuzz_p': 0.25,
+                      'stall': [who, rng.choice(['first', 'mid', 'last', 'last', 'last2', 'after-last']), (round(rng.choice([rng.uniform(0.09, 0.35), rng.uniform(0.09, 0.35), rng.uniform(1.0, 1.08)]), 4) if who == 'source' else rng.choice([0.12, 0.25, 1.1]))],
                       'seed': rng.randrange(1 << 30)})
     # (c) process executor, (d) ParmapperAsync
     for i in range(6 if tier == 'quick' else 150):
@@ -208,18 +218,28 @@ def run_case(case):
         ctl = gates.Controller(priorities=pr, settle=0.0005 if n > 60 else 0.0015, max_settle=0.02).start()
         ledger = gates.Ledger()
         pause = (lambda k: 0.002 if k % 7 == 0 else 0) if case['consumer'] == 'slow' else None
-        fz = schedfuzz.SchedFuzz(seed=case['seed'], p=0.03, changepoints=2) if case['fuzz'] else schedfuzz.NullFuzz()
+        src_pause = None
+        if case.get('stall'):
+            who, where, dur = case['stall']
+            pos = {'first': 0, 'mid': n // 2, 'last': n - 1, 'last2': n - 2, 'after-last': n}[where]
+            if who == 'source':
+                src_pause = lambda i, pos=pos, dur=dur: dur if i == pos else 0  # noqa: E731
+            else:
+                pause = lambda k, pos=pos, dur=dur: dur if k == max(1, pos) else 0  # noqa: E731
+        fz = schedfuzz.SchedFuzz(seed=case['seed'], p=case.get('fuzz_p', 0.03), changepoints=2) if case['fuzz'] else schedfuzz.NullFuzz()
         fz.add(S.fifo_stream, Q.SingleLane.put, Q.SingleLane.get, S.Parmapper.__iter__)
+        if case.get('stall'):
+            fz.add_handler_sites(S.fifo_stream, S.Parmapper.__iter__, prob=0.6, delay=0.02)
         try:
             with fz:
                 if kind == 'direct':
                     fn = lambda: H.run_fifo_direct(S, items, capacity=case['capacity'], return_x=case['return_x'],  # noqa: E731
                                                    return_exceptions=case['return_exceptions'], fail=fail, reject=reject,
-                                                   preproc=preproc, controller=ctl, ledger=ledger, consumer_pause=pause)
+                                                   preproc=preproc, controller=ctl, ledger=ledger, consumer_pause=pause, src_pause=src_pause)
                 else:
                     fn = lambda: H.run_parmap_thread(S, items, concurrency=case['concurrency'], return_x=case['return_x'],  # noqa: E731
                                                      return_exceptions=case['return_exceptions'], fail=fail, controller=ctl,
-                                                     ledger=ledger, consumer_pause=pause)
+                                                     ledger=ledger, consumer_pause=pause, src_pause=src_pause)
                 out, term, src = watch.run_bounded(fn, 40, f'{kind} run')
         except watch.Hang as h:
             viol.append({'mech': f'{kind}/hang', 'msg': 'run did not finish', 'stacks': h.stacks})
